@@ -242,6 +242,16 @@ pub fn msg_type_avp(t: &mut Tape) -> SAvp {
     SAvp { attr: 0, hidden: false, body: gen_body(t, 0) }
 }
 
+/// the `length` member of a control-message *value* handed to the encoder: the encoder computes the Length field itself,
+/// so a stale value (0, a previous size, anything) must have no influence
+pub fn gen_stale_length(t: &mut Tape) -> u16 {
+    match t.below(4) {
+        0 => 0,
+        1 => 12 + t.below(64) as u16,
+        _ => t.b_u16(),
+    }
+}
+
 /// G-val: a control message, 0 .. ~70 AVPs, built under the 65 535-octet budget, first AVP a Message Type
 pub fn gen_control(t: &mut Tape) -> SMsg {
     let k = match t.below(8) {
@@ -264,7 +274,7 @@ pub fn gen_control_k(t: &mut Tape, k: usize) -> SMsg {
         budget -= l;
         avps.push(a);
     }
-    SMsg::Control { length: 0, tunnel: t.b_u16(), session: t.b_u16(), ns: t.b_u16(), nr: t.b_u16(), avps }
+    SMsg::Control { length: gen_stale_length(t), tunnel: t.b_u16(), session: t.b_u16(), ns: t.b_u16(), nr: t.b_u16(), avps }
 }
 
 /// a control message that comes close to (or exactly hits) the 65 535-octet limit
@@ -287,7 +297,7 @@ pub fn gen_control_big(t: &mut Tape) -> SMsg {
             break;
         }
     }
-    SMsg::Control { length: 0, tunnel: t.b_u16(), session: t.b_u16(), ns: t.b_u16(), nr: t.b_u16(), avps }
+    SMsg::Control { length: gen_stale_length(t), tunnel: t.b_u16(), session: t.b_u16(), ns: t.b_u16(), nr: t.b_u16(), avps }
 }
 
 /// G-data: a data message in the round-trip domain (length absent or exact, offset absent or n <= |data|-1)
